@@ -600,6 +600,12 @@ func runC12(r *mon.Run) {
 		x, _ := dec.Parse("-3977600635E-8")
 		transCase(t, "value", "exp", c, x, dec.D{})
 		t.Count("pinned")
+		// fixed: Ln did not converge with MinExponent 0
+		x2, _ := dec.Parse("613974E-1737")
+		transCase(t, "value", "ln", dec.Ctx{P: 4, Emin: 0, Emax: 50, Mode: "half_down"}, x2, dec.D{})
+		x3, _ := dec.Parse("58766946476195139152733326900E-28")
+		transCase(t, "value", "ln", dec.Ctx{P: 58, Emin: 0, Emax: 58, Mode: "half_even"}, x3, dec.D{})
+		t.Count("pinned")
 	})
 	for _, k := range []string{"op/exp", "op/ln", "op/log10", "op/pow", "class/exact-by-definition", "class/overflow-reported", "class/underflow-reported", "err/0-0.5ulp", "exp-long-argument", "range-edge/exp", "range-edge/pow"} {
 		r.Require(k, 100)
